@@ -1,6 +1,7 @@
 import Heathcliff.Proofs.C08A
 import Heathcliff.Proofs.C08B
 import Heathcliff.Proofs.C08C
+import Heathcliff.Proofs.GenWord
 
 /- Property theorems only (statements verbatim; proofs are the helper lemmas of Heathcliff/Proofs). -/
 namespace HC.C08
@@ -180,6 +181,47 @@ theorem tryInvert_spec_partial {v q : Nat} (hq2 : 2 ≤ q) (hq : q < 2^61) (hv :
 
 /-- DIVISION WITH REMAINDER (shift-subtract loop of `divide_uint_inplace`), all lengths: n = q·d + r, r < d -/
 theorem divideUint_spec : HC.DivideUintStatement := HC.divideUint_spec
+
+/-! ### Tie to the source: the definitions of `Heathcliff/Gen/WordFns.lean`, regenerated from the Rust sources on every run by
+    `tools/rs2lean.py`, EQUAL the hand-model functions the theorems above are about (for all arguments). -/
+theorem gen_add_u64_eq (a b : Nat) : GenW.add_u64 a b = addU64 a b := HC.gw_add_u64_eq a b
+theorem gen_add_u64_carry_eq (a b c : Nat) : GenW.add_u64_carry a b c = addU64Carry a b c := HC.gw_add_u64_carry_eq a b c
+theorem gen_sub_u64_eq (a b : Nat) : GenW.sub_u64 a b = subU64 a b := HC.gw_sub_u64_eq a b
+theorem gen_sub_u64_borrow_eq (a b c : Nat) : GenW.sub_u64_borrow a b c = subU64Borrow a b c := HC.gw_sub_u64_borrow_eq a b c
+theorem gen_multiply_u64_high_word_eq (a b : Nat) : GenW.multiply_u64_high_word a b = mulHi a b := HC.gw_multiply_u64_high_word_eq a b
+theorem gen_multiply_u64_u64_eq (a b : Nat) : GenW.multiply_u64_u64 a b = (mulLo a b, mulHi a b) := HC.gw_multiply_u64_u64_eq a b
+theorem gen_increment_u64_mod_eq (x : Nat) (m : Modulus) : GenW.increment_u64_mod x m = incrementMod x m := HC.gw_increment_u64_mod_eq x m
+theorem gen_decrement_u64_mod_eq (x : Nat) (m : Modulus) : GenW.decrement_u64_mod x m = decrementMod x m := HC.gw_decrement_u64_mod_eq x m
+theorem gen_negate_u64_mod_eq (x : Nat) (m : Modulus) : GenW.negate_u64_mod x m = negateMod x m := HC.gw_negate_u64_mod_eq x m
+theorem gen_div2_u64_mod_eq (x : Nat) (m : Modulus) : GenW.div2_u64_mod x m = div2Mod x m := HC.gw_div2_u64_mod_eq x m
+theorem gen_add_u64_mod_eq (a b : Nat) (m : Modulus) : GenW.add_u64_mod a b m = addMod a b m := HC.gw_add_u64_mod_eq a b m
+theorem gen_sub_u64_mod_eq (a b : Nat) (m : Modulus) : GenW.sub_u64_mod a b m = subMod a b m := HC.gw_sub_u64_mod_eq a b m
+theorem gen_barrett_reduce_u128_eq (x0 x1 : Nat) (m : Modulus) : GenW.barrett_reduce_u128 x0 x1 m = barrett128 x0 x1 m := HC.gw_barrett_reduce_u128_eq x0 x1 m
+theorem gen_barrett_reduce_u64_eq (x : Nat) (m : Modulus) : GenW.barrett_reduce_u64 x m = barrett64 x m := HC.gw_barrett_reduce_u64_eq x m
+theorem gen_multiply_u64_mod_eq (a b : Nat) (m : Modulus) : GenW.multiply_u64_mod a b m = mulMod a b m := HC.gw_multiply_u64_mod_eq a b m
+theorem gen_multiply_u64operand_mod_eq (x : Nat) (y : MulOperand) (m : Modulus) :
+    GenW.multiply_u64operand_mod x y m = mulOperandMod x y m := HC.gw_multiply_u64operand_mod_eq x y m
+theorem gen_multiply_u64operand_mod_lazy_eq (x : Nat) (y : MulOperand) (m : Modulus) :
+    GenW.multiply_u64operand_mod_lazy x y m = mulOperandModLazy x y m := HC.gw_multiply_u64operand_mod_lazy_eq x y m
+theorem gen_multiply_add_u64_mod_eq (a b c : Nat) (m : Modulus) : GenW.multiply_add_u64_mod a b c m = mulAddMod a b c m := HC.gw_multiply_add_u64_mod_eq a b c m
+theorem gen_multiply_u64operand_add_u64_mod_eq (a : Nat) (b : MulOperand) (c : Nat) (m : Modulus) :
+    GenW.multiply_u64operand_add_u64_mod a b c m = mulOperandAddMod a b c m := HC.gw_multiply_u64operand_add_u64_mod_eq a b c m
+theorem gen_exponentiate_u64_mod_eq (x e : Nat) (m : Modulus) : GenW.exponentiate_u64_mod x e m = exponentiateMod x e m := HC.gw_exponentiate_u64_mod_eq x e m
+/-- `u64::leading_zeros` is modelled as `64 - bitlength`, meaningful below 2^64 only -/
+theorem gen_get_significant_bit_count_eq (v : Nat) (hv : v < 2^64) : GenW.get_significant_bit_count v = pure (bitCount v) := HC.gw_get_significant_bit_count_eq v hv
+theorem gen_gcd_eq (x y : Nat) : GenW.gcd x y = pure (gcdU64 x y) := HC.gw_gcd_eq x y
+/-- the empty slice panics with an arithmetic overflow in the code (`value.len() - 1`), the hand model reports `oob` -/
+theorem gen_modulo_uint_eq (v : List Nat) (m : Modulus) (hv : v ≠ []) : GenW.modulo_uint v m = moduloUint v m := HC.gw_modulo_uint_eq v m hv
+theorem gen_add_u128_inplace_eq (a0 a1 b0 b1 : Nat) : GenW.add_u128_inplace a0 a1 b0 b1 =
+    ((addU128 a0 a1 b0 b1).1, (addU128 a0 a1 b0 b1).2, (addU64Carry a1 b1 (addU64 a0 b0).2).2) := HC.gw_add_u128_inplace_eq a0 a1 b0 b1
+theorem gen_dot_product_mod_eq (xs ys : List Nat) (m : Modulus) : GenW.dot_product_mod xs ys m = dotProductMod xs ys m := HC.gw_dot_product_mod_eq xs ys m
+/-- `(x % y) as i64 as u64` is the identity only below 2^64: hence `y < 2^64` -/
+theorem gen_xgcd_eq (x y : Nat) (hy : y < 2^64) : GenW.xgcd x y = HC.xgcd x y := HC.gw_xgcd_eq x y hy
+/-- (new `*result`, returned bool) against the hand model's `Option`, on the domain of `xgcd_spec` (v < 2^63, 2 ≤ m < 2^61) -/
+theorem gen_try_invert_u64_mod_u64_eq (v m r0 : Nat) (hv : v < 2^63) (hm2 : 2 ≤ m) (hm : m < 2^61) :
+    GenW.try_invert_u64_mod_u64 v m r0 =
+      (tryInvert v m >>= fun o => pure (match o with | none => (r0, false) | some r => (r, true))) := HC.gw_try_invert_u64_mod_u64_eq v m r0 hv hm2 hm
+--GEN-STRETCH
 
 /-- non-vacuity: a 61-bit modulus is well formed and the premises of the theorems are satisfiable -/
 example : ∃ m, Modulus.mk? 2305843009213693951 = .ok m ∧ m.WF :=
